@@ -69,6 +69,10 @@ def b_str(interp, args, kwargs, node):
         c, fn = v.cls.find('__str__')
         if fn is not None:
             return interp.call_function(Closure(fn, None, c.module, f'{c.name}.__str__', cls=c), [v], {})
+    if isinstance(v, SObj):
+        # repr-like rendering of an object: only ever used in log / error messages
+        interp.world.dropped.add('text of str(<object>) (messages only): an unconstrained string')
+        return mk_str(z3.String(interp.ex.fresh_name('objstr')))
     raise Unsupported(f'str() of {type(v).__name__}', node)
 
 
@@ -505,6 +509,21 @@ def b_zip(interp, args, kwargs, node):
     return [tuple(t) for t in zip(*lists)]
 
 
+def b_map(interp, args, kwargs, node):
+    f = args[0]
+    lists = [interp.iterate(a, node) for a in args[1:]]
+    return [interp.call(f, list(t), {}, node) for t in zip(*lists)]
+
+
+def b_filter(interp, args, kwargs, node):
+    f = args[0]
+    out = []
+    for x in interp.iterate(args[1], node):
+        if interp.truth(x if f is None else interp.call(f, [x], {}, node)):
+            out.append(x)
+    return out
+
+
 def b_reversed(interp, args, kwargs, node):
     return list(reversed(interp.iterate(args[0], node)))
 
@@ -897,18 +916,27 @@ def case_facts(interp, t):
     ex.add_axiom(z3.Implies(ascii1, z3.And(up(t) == chain_u, lo(t) == chain_l)))
 
 
+def _case_map(interp, t, ufname, pyfn):
+    """apply a case mapping; constants (also under if-then-else) are mapped concretely"""
+    t = z3.simplify(t)
+    if z3.is_string_value(t):
+        return z3.StringVal(pyfn(t.as_string()))
+    if z3.is_app(t) and t.decl().kind() == z3.Z3_OP_ITE:
+        return z3.If(t.arg(0), _case_map(interp, t.arg(1), ufname, pyfn), _case_map(interp, t.arg(2), ufname, pyfn))
+    case_facts(interp, t)
+    return uf(ufname, S, S)(t)
+
+
 def s_upper(interp, s, args, kwargs, node):
     if isinstance(s, str):
         return s.upper()
-    case_facts(interp, s.t)
-    return mk_str(uf('str_upper', S, S)(s.t))
+    return mk_str(_case_map(interp, s.t, 'str_upper', str.upper))
 
 
 def s_lower(interp, s, args, kwargs, node):
     if isinstance(s, str):
         return s.lower()
-    case_facts(interp, s.t)
-    return mk_str(uf('str_lower', S, S)(s.t))
+    return mk_str(_case_map(interp, s.t, 'str_lower', str.lower))
 
 
 def s_startswith(interp, s, args, kwargs, node):
@@ -1328,6 +1356,8 @@ def make_builtins(world):
     reg('enumerate', b_enumerate)
     reg('zip', b_zip)
     reg('reversed', b_reversed)
+    reg('map', b_map)
+    reg('filter', b_filter)
     reg('sorted', b_sorted)
     reg('isinstance', b_isinstance)
     reg('hasattr', b_hasattr)
